@@ -334,8 +334,8 @@ def gen_unit(u):
 
 QUICK = [(["id"], 3, 1), (["sum"], 3, 1), (["max", "logsumexp", "any"], 2, 1), (["add"], 2, 0), (["add", "subtract"], 1, 1), (["where"], 1, 1), (["dot"], 3, 0), (["dot"], 2, 1), (["get_at"], 2, 0),
          (["add_at", "set_at"], 2, 0), (["flip", "argmax"], 3, 1), (["sort", "softmax", "roll"], 2, 1)]
-THOROUGH = [(["id"], 3, 2), (["sum", "max", "mean"], 3, 2), (["logsumexp", "any", "prod"], 3, 1), (["add", "subtract", "where", "less"], 2, 1), (["dot"], 3, 1), (["get_at"], 2, 1), (["add_at", "set_at", "subtract_at"], 2, 1),
-            (["flip", "argmax", "sort", "softmax", "roll", "argsort", "argmin"], 3, 1)]
+THOROUGH = [(["id"], 3, 1), (["id"], 2, 2), (["id"], 4, 0), (["sum", "max", "mean"], 3, 1), (["logsumexp", "any", "prod"], 2, 1), (["add", "subtract"], 2, 1), (["where", "less"], 1, 1), (["dot"], 3, 0), (["dot"], 2, 1),
+            (["get_at"], 2, 1), (["add_at", "set_at", "subtract_at"], 2, 0), (["add_at"], 1, 1), (["flip", "argmax", "sort", "softmax", "roll", "argsort", "argmin"], 3, 1)]
 
 
 def run(ctx):
